@@ -191,8 +191,8 @@ Definition obs0 (o : op) (s : st0) : out :=
   | OSize => RNum (size0 s)
   | ODirty => RBool (dirty0 s)
   | OIter r lo hi => RKVs (maybe_rev r (iter_list (all0 s) lo hi (kf0 s)))
-  | OIterFlags lo hi =>
-      RKFVs (flat_map (fun p => if in_bounds lo hi (fst p) then [(fst p, snd p, kfind (fst p) (all0 s))] else []) (kf0 s))
+  | OIterFlags r lo hi =>
+      RKFVs (maybe_rev r (flat_map (fun p => if in_bounds lo hi (fst p) then [(fst p, snd p, kfind (fst p) (all0 s))] else []) (kf0 s)))
   | OSnapGet k => RVal (kfind k (base0 s))
   | OSnapIter r lo hi => RKVs (maybe_rev r (iter_list (base0 s) lo hi (kf0 s)))
   | OInspect h =>
